@@ -78,7 +78,7 @@ def run(tier, seed):
     nb = 0
     for (s, i), mo in zip(cases, outs):
         ctx, line, col = util.get_pattern_context(s, i)
-        model = (lib.sx_to_str(mo[0]), int(mo[1]), int(mo[2]))
+        model = ('\ufffe', -1, -1) if lib.is_err(mo) else (lib.sx_to_str(mo[0]), int(mo[1]), int(mo[2]))
         ck.count(('ctx', min(len(s), 8), i == len(s), '\r\n' in s, '\r' in s, '\n' in s))
         if (ctx, line, col) != model:
             nb += 1
@@ -127,6 +127,31 @@ def run(tier, seed):
             if not ok:
                 ck.violation(f'compile({r["pattern"]!r}): SelectorSyntaxError line {real[1]} col {real[2]} is not a position of the pattern '
                              '(nor of a custom definition) or the context has no caret under it', {'pattern': r['pattern'], 'custom': r.get('custom'), 'line': real[1], 'col': real[2], 'context': real[3]})
+    # ---- (2b) DEBUG changes no outcome of a malformed pattern either: same exception, same message, line, column, context
+    import io, contextlib
+
+    def outcome(pt, cu, fl):
+        sv.purge()
+        try:
+            with warnings.catch_warnings():
+                warnings.simplefilter('ignore')
+                with contextlib.redirect_stdout(io.StringIO()):
+                    c_ = sv.compile(pt, None, fl, custom=cu)
+            return ('ok', repr(c_.selectors))
+        except Exception as ex:
+            return (type(ex).__name__, str(ex), getattr(ex, 'line', None), getattr(ex, 'col', None), getattr(ex, 'context', None))
+    twice = []
+    for _ in range(250 if tier == 'quick' else 5000):
+        d = gen_strings.mutate(rnd, gen_strings.mutate(rnd, sg.selector(1)))
+        if rnd.random() < 0.5:
+            d += rnd.choice([' $', ' %', '\\', ' ^x', ' ;', '{', ' !'])           # a character no token accepts, after whatever came first
+        twice.append((d, None))
+    for pt, cu in rnd.sample(pats, min(len(pats), 250 if tier == 'quick' else 5000)) + twice:
+        o0, o1 = outcome(pt, cu, 0), outcome(pt, cu, sv.DEBUG)
+        ck.count(('debug-outcome', o0[0]))
+        if o0 != o1:
+            ck.violation(f'compile({pt!r}) gives {o0[:2]} without and {o1[:2]} with flags=DEBUG',
+                         {'pattern': pt, 'custom': cu, 'without_debug': list(o0), 'with_debug': list(o1)})
     # ---- (3) DEBUG changes no result
     for sc in campaign.build(rnd, 'ns', 30 if tier == 'quick' else 600, 0) + campaign.build(rnd, 'core', 20 if tier == 'quick' else 400, 0):
         pools = gen_selectors.pools_from_soup(sc.top)
